@@ -6,6 +6,7 @@
 //! `shout` output there). A worker that dies is restarted by the driver; the request in flight
 //! is attributed the crash.
 
+mod info;
 mod prog;
 mod util;
 
@@ -14,6 +15,7 @@ fn main() {
     let mode = args.get(1).map(String::as_str).unwrap_or("");
     match mode {
         "prog" => prog::worker(),
+        "info" => info::info(),
         _ => {
             eprintln!("usage: vh <prog> ...");
             std::process::exit(2);
